@@ -6,6 +6,7 @@ package main
 import (
 	"fmt"
 	"math/big"
+	"reflect"
 	"sort"
 	"strings"
 
@@ -239,4 +240,151 @@ func c18Inventory(paramsN2 ckks.Parameters, evk *bootstrapping.EvaluationKeys, c
 		}
 	}
 	return strings.Join(es, ";"), es
+}
+
+// ---------------------------------------------------------------- ShallowCopy wiring (reflection)
+
+// c18Walker collects the data pointers of every slice reachable from a value, without descending
+// into the types that are read-only and shared by design (parameters, rings, keys, plaintext
+// matrices, polynomials).
+type c18Walker struct {
+	seen   map[uintptr]bool
+	slices map[uintptr]string // data pointer of a non-empty slice -> first path reaching it
+}
+
+var c18ReadOnlyTypes = map[string]bool{
+	"rlwe.Parameters": true, "ckks.Parameters": true, "bootstrapping.Parameters": true,
+	"ring.Ring": true, "ringqp.Ring": true, "rlwe.SecretKey": true,
+	"bootstrapping.EvaluationKeys": true, "rlwe.MemEvaluationKeySet": true, "main.c18LogKeys": true,
+	"dft.Matrix": true, "mod1.Parameters": true, "rlwe.EvaluationKey": true, "bignum.Polynomial": true, "big.Int": true, "big.Float": true,
+}
+
+func (w *c18Walker) walk(v reflect.Value, path string, depth int) {
+	if depth > 40 || !v.IsValid() {
+		return
+	}
+	t := v.Type()
+	name := t.String()
+	if len(name) > 0 && name[0] == '*' {
+		name = name[1:]
+	}
+	if c18ReadOnlyTypes[name] {
+		return
+	}
+	switch v.Kind() {
+	case reflect.Ptr:
+		if v.IsNil() {
+			return
+		}
+		p := v.Pointer()
+		if w.seen[p] {
+			return
+		}
+		w.seen[p] = true
+		w.walk(v.Elem(), path, depth+1)
+	case reflect.Interface:
+		if !v.IsNil() {
+			w.walk(v.Elem(), path, depth+1)
+		}
+	case reflect.Struct:
+		for i := 0; i < v.NumField(); i++ {
+			w.walk(v.Field(i), path+"."+t.Field(i).Name, depth+1)
+		}
+	case reflect.Slice:
+		if v.IsNil() || v.Len() == 0 {
+			return
+		}
+		p := v.Pointer()
+		if _, ok := w.slices[p]; !ok {
+			w.slices[p] = path
+		}
+		if w.seen[p] {
+			return
+		}
+		w.seen[p] = true
+		switch t.Elem().Kind() {
+		case reflect.Struct, reflect.Ptr, reflect.Slice, reflect.Interface, reflect.Array, reflect.Map:
+			for i := 0; i < v.Len(); i++ {
+				w.walk(v.Index(i), path+"[]", depth+1)
+			}
+		}
+	case reflect.Array:
+		for i := 0; i < v.Len(); i++ {
+			w.walk(v.Index(i), path+"[]", depth+1)
+		}
+	case reflect.Map:
+		it := v.MapRange()
+		for it.Next() {
+			w.walk(it.Value(), path+"{}", depth+1)
+		}
+	}
+}
+
+func c18Slices(x interface{}) map[uintptr]string {
+	w := &c18Walker{seen: map[uintptr]bool{}, slices: map[uintptr]string{}}
+	w.walk(reflect.ValueOf(x), "", 0)
+	return w.slices
+}
+
+// c18SharedScratch lists the paths (in a) of slices whose backing array is reachable from both a and b,
+// minus the allow-listed read-only tables.
+func c18SharedScratch(a, b interface{}, allow []string) []string {
+	sa, sb := c18Slices(a), c18Slices(b)
+	var out []string
+	for p, path := range sa {
+		if _, ok := sb[p]; !ok {
+			continue
+		}
+		skip := false
+		for _, al := range allow {
+			if strings.Contains(path, al) {
+				skip = true
+			}
+		}
+		if !skip {
+			out = append(out, path)
+		}
+	}
+	sort.Strings(out)
+	return out
+}
+
+// c18HashBuffers hashes the exported scratch buffers of an rlwe evaluator.
+func c18HashBuffers(b *rlwe.EvaluatorBuffers) uint64 {
+	h := uint64(1469598103934665603)
+	mix := func(p ring.Poly) {
+		for _, row := range p.Coeffs {
+			for _, x := range row {
+				h = (h ^ x) * 1099511628211
+			}
+		}
+	}
+	for _, p := range b.BuffCt.Value {
+		mix(p)
+	}
+	for _, qp := range b.BuffQP {
+		mix(qp.Q)
+		mix(qp.P)
+	}
+	mix(b.BuffInvNTT)
+	for _, qp := range b.BuffDecompQP {
+		mix(qp.Q)
+		mix(qp.P)
+	}
+	for _, x := range b.BuffBitDecomp {
+		h = (h ^ x) * 1099511628211
+	}
+	return h
+}
+
+func c18CtEqual(a, b *rlwe.Ciphertext) bool {
+	if a == nil || b == nil || a.Level() != b.Level() || len(a.Value) != len(b.Value) || !a.Scale.Equal(b.Scale) {
+		return false
+	}
+	for i := range a.Value {
+		if !a.Value[i].Equal(&b.Value[i]) {
+			return false
+		}
+	}
+	return true
 }
